@@ -1,11 +1,11 @@
 SPECIFICATION Spec
 CONSTANTS
-  Programs <- SmallPrograms
-  QuerySeqs <- QS2
+  Programs <- FamilyKF2
+  QuerySeqs <- QSa
   Permute = TRUE
   CheckOnTableHit = TRUE
   RepairFalseResult = TRUE
-  LinkStopsAtNegation = FALSE
+  LinkStopsAtNegation = TRUE
 VIEW view
 INVARIANT NoDanglingMessages
 INVARIANT NoError
